@@ -27,6 +27,12 @@ def col_deps_model(reply, case):
     return deps
 
 
+def same(a, b):
+    """unchanged up to the last bits (vectorised elementary functions may round a lane differently when OTHER lanes change)"""
+    a, b = np.asarray(a, dtype=float), np.asarray(b, dtype=float)
+    return a.shape == b.shape and np.allclose(a, b, rtol=1e-11, atol=1e-13, equal_nan=True)
+
+
 def col_deps_impl(case, est, rng):
     """perturb one input column at a time; which output columns move"""
     X = st.X_of(case)
@@ -35,10 +41,10 @@ def col_deps_impl(case, est, rng):
     deps = [set() for _ in range(base.shape[1] - ep)]
     for j in range(case['nx'] + case['nu']):
         Xp = X.copy()
-        Xp[:, ep + j] = Xp[:, ep + j] * 1.37 + 0.211
+        Xp[:, ep + j] = (Xp[:, ep + j] * 3 + 7) if Xp.dtype.kind in 'iu' else (Xp[:, ep + j] * 1.37 + 0.211)
         out = est.transform(Xp)
         for k in range(base.shape[1] - ep):
-            if not np.array_equal(out[:, ep + k], base[:, ep + k]):
+            if not same(out[:, ep + k], base[:, ep + k]):
                 deps[k].add(j)
     return deps
 
@@ -133,7 +139,8 @@ def run(ctx):
             bad.append(c)
         else:
             for k, (a, b) in enumerate(zip(di, dm)):
-                if not (a <= b) or (algebraic and a != b):
+                # (zero columns hide genuine dependencies from a perturbation experiment: only soundness is compared then)
+                if not (a <= b) or (algebraic and a != b and not c.get('degenerate')):
                     ctx.mismatch(f'dependency of lifted column {k}', c, sorted(a), sorted(b))
                     bad.append(c)
                     break
